@@ -471,6 +471,46 @@ class WithItemsUniversal(Monitor):
                               task=t['name'])
 
 
+class NoTaskAfterEnd(Monitor):
+    """C11 (also the fail / succeed commands of C01): inside one unit, once
+    the workflow execution has been moved to a final state no task execution
+    is created in it any more.  (Creation in a *later* unit is what the
+    no-insert monitor sees; this one sees the order of two writes inside one
+    transaction: compare-and-swap to a final state, then an object of a new
+    task.)"""
+    name = 'no-task-after-end'
+    prop = 'C11'
+    FINAL = ('SUCCESS', 'ERROR', 'CANCELLED')
+
+    def __init__(self):
+        super(NoTaskAfterEnd, self).__init__()
+        self.ended = {}       # (unit, wf id) -> state
+
+    def on_event(self, ev, rec):
+        k = ev['kind']
+        if k == 'CAS' and ev.get('model') == 'WorkflowExecution' and \
+                ev.get('matched'):
+            key = (ev.get('unit'), ev['id'])
+            if ev.get('to') in self.FINAL:
+                self.ended[key] = ev['to']
+            else:
+                self.ended.pop(key, None)
+        elif k in ('ROLLBACK', 'UNIT_END'):
+            u = ev.get('unit')
+            for key in [x for x in self.ended if x[0] == u]:
+                del self.ended[key]
+        elif k == 'ATTR_SET' and ev.get('model') == 'TaskExecution' and \
+                ev.get('col') == 'workflow_execution_id' and ev.get('new'):
+            self.evaluations += 1
+            st = self.ended.get((ev.get('unit'), ev['new']))
+            if st:
+                self.fire('a task execution was created in workflow '
+                          'execution %s after it had been moved to %s in '
+                          'the same unit (%s)' % (
+                              str(ev['new'])[:8], st, ev.get('ulabel')),
+                          mech='task-created-after-end')
+
+
 class MonitorHealth(Monitor):
     """A crashing monitor or a recorder problem makes the case
     inconclusive, never 'held'."""
@@ -489,4 +529,4 @@ def _s(v):
 def universal(world_ref, exc_allow=()):
     return [ExceptionType(exc_allow), Quiescence(), Lifecycle(),
             ExactlyOnce(), JoinMonitor(world_ref), PauseStop(),
-            WithItemsUniversal()]
+            WithItemsUniversal(), NoTaskAfterEnd()]
